@@ -846,6 +846,31 @@ class SymStr(object):
 
 # ------------------------------------------------------------------------------ dict
 
+class _DictView(object):
+    """iteration over a SymDict that, like a native dict, refuses to go on after the size changed"""
+
+    def __init__(self, d, what):
+        self.d = d
+        self.what = what
+
+    def __iter__(self):
+        d = self.d
+        n = len(d.kv)
+        snap = list(d.kv)
+        for (k, v) in snap:
+            if len(d.kv) != n:
+                raise RuntimeError('dictionary changed size during iteration')
+            yield k if self.what == 'k' else v if self.what == 'v' else (k, v)
+        if len(d.kv) != n:
+            raise RuntimeError('dictionary changed size during iteration')
+
+    def __len__(self):
+        return len(self.d.kv)
+
+    def __contains__(self, x):
+        return x in list(iter(self))
+
+
 class SymDict(object):
     """insertion-ordered association list; keys compared with == (forks on symbolic keys)"""
 
@@ -893,16 +918,16 @@ class SymDict(object):
         return bool(self.kv)
 
     def __iter__(self):
-        return iter([k for k, _ in self.kv])
+        return iter(_DictView(self, 'k'))
 
     def keys(self):
-        return [k for k, _ in self.kv]
+        return _DictView(self, 'k')
 
     def values(self):
-        return [v for _, v in self.kv]
+        return _DictView(self, 'v')
 
     def items(self):
-        return list(self.kv)
+        return _DictView(self, 'i')
 
     def get(self, k, d=None):
         i = self._find(k)
